@@ -126,11 +126,12 @@ theorem C10_roundtrip_main (fs : List Frame) (hfs : ∀ f ∈ fs, f.id.length = 
 
 /-- **Write segmentation**: `FrameStream.Write(p)` on an open stream, for every `p` (empty, one frame,
 several frames, sizes k·64 KiB ± 1): accepts all of `p`, and what it puts on the connection is the
-encoding of data frames of this tunnel, each within the frame limit, whose payloads concatenate to `p`. -/
+encoding of data frames of this tunnel, each within the frame limit, whose payloads concatenate to `p`,
+at most ⌊|p| / 64 KiB⌋ + 1 of them. -/
 theorem C10_write_segmentation (st : FS) (hid : st.tunnelID.length = idLen) (hopen : st.writeEOF = false) (p : Bytes) :
     ∃ fs : List Frame, st.write p = (.ok p.length, { st with out := st.out ++ encodeAll fs }) ∧
       (∀ f ∈ fs, f.id = st.tunnelID ∧ f.ty = crossnode.FrameTypeData ∧ f.WF) ∧
-      (fs.map (·.data)).flatten = p :=
+      (fs.map (·.data)).flatten = p ∧ fs.length ≤ p.length / crossnode.MaxFrameSize + 1 :=
   write_open st hid p hopen
 
 /-- **Reader (all interleavings of all frames)**: the connection carries ANY sequence `fs` of
@@ -171,7 +172,7 @@ frames of other tunnels and of unknown types are never delivered, whatever the r
 theorem C10_stream_main (trk : Tracker) (me : Bytes) (evs : List Ev) (hwf : ∀ e ∈ evs, evWF me e = true)
     (cut : Bytes → List Bytes) (hcut : ∀ b, (cut b).flatten = b) (tail : Tail) (rw : Bool) (ps : List Nat) :
     holdsStream me evs tail ps (runStream trk me evs cut tail rw ps) = true := by
-  obtain ⟨fs, h1, h2, h3, h4, h5⟩ :=
+  obtain ⟨fs, h1, h2, h3, h4, h5, -⟩ :=
     runWriter_open me (FS.init (tunnelIDFromString me) ⟨[], .eof⟩) evs rfl rfl hwf
   simp only [FS.init, List.nil_append] at h1 h2
   have hfuel : fs.length < (runWriter (FS.init (tunnelIDFromString me) ⟨[], .eof⟩) evs).2.out.length + 1 := by
@@ -224,38 +225,62 @@ theorem expected_writes_closeWrite (me : Bytes) (ups : List Bytes) :
   | nil => rfl
   | cons u us ih => simp [expected, ih]
 
-/-- **Forwarding (partial)**: in the model of `runBidirectionalForward` over a stream, for every way
-`ups` the upload is handed to `Write`, the peer receives a prefix of the application's bytes, and when
-both ends have seen end-of-stream (`done`) the peer received all of them and the application received
-all of the answer.
-Full statement (not proved): `holdsFw ups.flatten down (runForward me ups down) = true`, i.e. `done`
-is always reached with the read counts `runForward` uses — it needs a progress count over
-`checkReads`; the goroutine structure of the forwarder itself (two `io.Copy`, `closeAll`) is observed
-by the harness (`fw` cases), not modelled. -/
-theorem C10_forward_partial (me : Bytes) (ups : List Bytes) (down : Bytes) :
-    (runForward me ups down).up <+: ups.flatten ∧
-    ((runForward me ups down).done = true →
-      (runForward me ups down).up = ups.flatten ∧ (runForward me ups down).down = down) := by
-  have hu := C10_stream_main none me (ups.map Ev.write ++ [.closeWrite])
-    (by intro e he
-        rcases List.mem_append.mp he with he | he
-        · obtain ⟨u, -, rfl⟩ := List.mem_map.mp he; rfl
-        · simp only [List.mem_singleton] at he; subst he; rfl)
-    (fun b => [b]) (by simp) .eof false
-    (List.replicate (ups.length + ups.flatten.length / crossnode.MaxFrameSize + 2) crossnode.MaxFrameSize)
-  have hd := C10_stream_main none me [.write down, .close]
-    (by intro e he; simp only [List.mem_cons, List.not_mem_nil, or_false] at he; rcases he with rfl | rfl <;> rfl)
-    (fun b => [b]) (by simp) .eof false
-    (List.replicate (down.length / crossnode.MaxFrameSize + 3) crossnode.MaxFrameSize)
-  obtain ⟨-, u2, u3⟩ := C10_holds_meaning _ _ _ _ _ hu
-  obtain ⟨-, -, d3⟩ := C10_holds_meaning _ _ _ _ _ hd
-  rw [expected_writes_closeWrite] at u2 u3
+/-- **Termination with frame-sized buffers**: when an end-of-stream is due (a close/half-close was sent
+or the connection ends), every read buffer holds a whole frame and there are more reads than
+`frameBound evs` (an upper bound of the frames on the wire), a `Read` returns end-of-stream — and then,
+by `C10_holds_meaning`, everything has been delivered. -/
+theorem C10_stream_terminates (trk : Tracker) (me : Bytes) (evs : List Ev) (hwf : ∀ e ∈ evs, evWF me e = true)
+    (cut : Bytes → List Bytes) (hcut : ∀ b, (cut b).flatten = b) (tail : Tail) (rw : Bool) (ps : List Nat)
+    (hdue : ((expected me evs).2 || tail == .eof) = true)
+    (hps : ∀ p ∈ ps, crossnode.MaxFrameSize ≤ p) (hlen : frameBound evs < ps.length) :
+    RRes.eof ∈ (runStream trk me evs cut tail rw ps).reads ∧
+    delivered (runStream trk me evs cut tail rw ps).reads = (expected me evs).1 := by
+  obtain ⟨fs, h1, -, h3, -, h5, h6⟩ :=
+    runWriter_open me (FS.init (tunnelIDFromString me) ⟨[], .eof⟩) evs rfl rfl hwf
+  simp only [FS.init, List.nil_append] at h1
+  have hfuel : fs.length < (runWriter (FS.init (tunnelIDFromString me) ⟨[], .eof⟩) evs).2.out.length + 1 := by
+    simp only [FS.init]
+    rw [h1]
+    exact Nat.lt_succ_of_le (encodeAll_length_ge fs)
+  have hinv : Inv ({ FS.init (tunnelIDFromString me)
+      ⟨cut (runWriter (FS.init (tunnelIDFromString me) ⟨[], .eof⟩) evs).2.out, tail⟩ with writeEOF := rw }) fs tail :=
+    ⟨by simp only [Src.flat, hcut, FS.init]; exact h1, rfl, h3, rfl⟩
+  have heof := readLoop_big trk tail _ ps _ fs hinv hfuel (by simp only [FS.init]; rw [h5]; exact hdue)
+    ⟨rfl, rfl⟩ hps (Nat.lt_of_le_of_lt h6 hlen)
+  have hmain := C10_stream_main trk me evs hwf cut hcut tail rw ps
+  have hm := C10_holds_meaning me evs tail ps _ hmain
+  have hmem : RRes.eof ∈ (runStream trk me evs cut tail rw ps).reads := by
+    simpa [runStream, FS.init] using heof
+  exact ⟨hmem, hm.2.2 (Or.inl hmem)⟩
+
+/-- **Forwarding (main)**: in the model of `runBidirectionalForward` over a stream, for every tunnel id,
+every way `ups` the upload is handed to `Write` and every answer `down`: the peer receives exactly the
+application's bytes followed by end-of-stream after the half-close, and the application receives
+exactly the answer followed by end-of-stream after the close.  (The goroutine structure of the
+forwarder itself — two `io.Copy`, `closeAll` — is observed by the harness `fw` cases, not modelled.) -/
+theorem C10_forward_main (me : Bytes) (ups : List Bytes) (down : Bytes) :
+    holdsFw ups.flatten down (runForward me ups down) = true := by
+  have hwu : ∀ e ∈ ups.map Ev.write ++ [.closeWrite], evWF me e = true := by
+    intro e he
+    rcases List.mem_append.mp he with he | he
+    · obtain ⟨u, -, rfl⟩ := List.mem_map.mp he; rfl
+    · simp only [List.mem_singleton] at he; subst he; rfl
+  have hwd : ∀ e ∈ [Ev.write down, .close], evWF me e = true := by
+    intro e he
+    simp only [List.mem_cons, List.not_mem_nil, or_false] at he
+    rcases he with rfl | rfl <;> rfl
+  have hu := C10_stream_terminates none me (ups.map Ev.write ++ [.closeWrite]) hwu (fun b => [b]) (by simp) .eof false
+    (List.replicate (frameBound (ups.map Ev.write ++ [.closeWrite]) + 1) crossnode.MaxFrameSize)
+    (by simp) (by intro p hp; rw [(List.mem_replicate.mp hp).2]; exact Nat.le_refl _) (by simp)
+  have hd := C10_stream_terminates none me [.write down, .close] hwd (fun b => [b]) (by simp) .eof false
+    (List.replicate (frameBound [Ev.write down, .close] + 1) crossnode.MaxFrameSize)
+    (by simp) (by intro p hp; rw [(List.mem_replicate.mp hp).2]; exact Nat.le_refl _) (by simp)
+  rw [expected_writes_closeWrite] at hu
   have hde : (expected me [.write down, .close]).1 = down := by simp [expected]
-  rw [hde] at d3
-  refine ⟨u2, ?_⟩
-  intro hdone
-  simp only [runForward, Bool.and_eq_true, List.contains_iff_mem] at hdone
-  exact ⟨u3 (Or.inl hdone.1), d3 (Or.inl hdone.2)⟩
+  rw [hde] at hd
+  simp only [holdsFw, runForward, hu.2, hd.2, beq_self_eq_true, Bool.true_and, Bool.and_eq_true,
+    List.contains_iff_mem]
+  exact ⟨hu.1, hd.1⟩
 
 /-- The chunking function the driver uses is a chunking (so `C10_stream_main` covers every case line). -/
 theorem C10_chunkBy_flatten (ns : List Nat) (bs : Bytes) : (Drv.chunkBy ns bs).flatten = bs := by
